@@ -21,6 +21,7 @@
 package compile
 
 import (
+	"errors"
 	"fmt"
 
 	"go.uber.org/thriftrw/ast"
@@ -35,6 +36,10 @@ type Constant struct {
 	Doc   string
 	Type  TypeSpec
 	Value ConstantValue
+
+	// linking is true while Link is on the stack for this constant. It is
+	// used to detect constants that are defined in terms of themselves.
+	linking bool
 }
 
 // compileConstant builds a Constant from the given AST constant.
@@ -56,8 +61,20 @@ func compileConstant(file string, src *ast.Constant) (*Constant, error) {
 // Link resolves any references made by the constant.
 func (c *Constant) Link(scope Scope) (err error) {
 	if c.linked() {
+		if c.linking {
+			// We got back here while still linking this constant's value:
+			// the constant refers to itself, directly or through other
+			// constants. Without this check the value could never be
+			// resolved and linking recursed until the stack overflowed.
+			return compileError{
+				Target: c.Name,
+				Reason: errors.New("the constant is defined in terms of itself"),
+			}
+		}
 		return nil
 	}
+	c.linking = true
+	defer func() { c.linking = false }()
 
 	if c.Type, err = c.Type.Link(scope); err != nil {
 		return compileError{Target: c.Name, Reason: err}
